@@ -104,15 +104,36 @@ func signerHelper() {
 	os.Exit(0)
 }
 
+// runLife runs the signer helper. inject = "" : no fault; otherwise a system-call class, hit at its when-th
+// occurrence: fault "KILL" kills the process on entry of the call, any other value is the errno the call fails with
+// (the call is not executed and the process goes on). injected reports whether the fault was actually delivered.
 func runLife(t *rapid.T, dir string, ops []signOp, life int, inject string, when int) (rel []released, pub []byte, killed bool, out string) {
+	rel, pub, killed, out, _ = runLifeFault(t, dir, ops, life, inject, when, "KILL")
+	return
+}
+
+func runLifeFault(t *rapid.T, dir string, ops []signOp, life int, inject string, when int, fault string) (rel []released, pub []byte, killed bool, out string, injected bool) {
 	opsJSON, _ := json.Marshal(ops)
 	var cmd *exec.Cmd
+	traceFile := ""
 	if inject == "" {
 		cmd = exec.Command(os.Args[0], "-test.run", "^$")
-	} else {
+	} else if fault == "KILL" {
 		cmd = exec.Command("strace", "-f", "-o", "/dev/null", "-e", "trace="+inject,
 			"-e", fmt.Sprintf("inject=%s:signal=KILL:when=%d", inject, when), os.Args[0], "-test.run", "^$")
+	} else {
+		traceFile = filepath.Join(filepath.Dir(dir), "strace.out")
+		os.Remove(traceFile)
+		cmd = exec.Command("strace", "-f", "-o", traceFile, "-e", "trace="+inject,
+			"-e", fmt.Sprintf("inject=%s:error=%s:when=%d", inject, fault, when), os.Args[0], "-test.run", "^$")
 	}
+	defer func() {
+		if traceFile != "" {
+			if b, err := os.ReadFile(traceFile); err == nil {
+				injected = strings.Contains(string(b), "(INJECTED)")
+			}
+		}
+	}()
 	cmd.Env = append(os.Environ(), helperEnv+"=1", "C04_DIR="+dir, "C04_OPS="+string(opsJSON), "GOMAXPROCS=1")
 	b, err := cmd.CombinedOutput()
 	out = string(b)
@@ -171,6 +192,19 @@ var syscallClasses = []string{
 	"write",
 	"close",
 	"chmod,fchmod,fchmodat",
+}
+
+// errorClasses: system calls of the sign-state replacement that may FAIL without killing the process.
+var errorClasses = []struct {
+	calls  string
+	errnos []string
+}{
+	{"openat,open", []string{"EMFILE", "ENOSPC", "EACCES"}},
+	{"write", []string{"ENOSPC", "EIO"}},
+	{"fsync,fdatasync", []string{"EIO", "ENOSPC"}},
+	{"rename,renameat,renameat2", []string{"ENOSPC", "EIO", "EACCES"}},
+	{"close", []string{"EIO"}},
+	{"chmod,fchmod,fchmodat", []string{"EPERM"}},
 }
 
 func checkReleased(all []released, pub []byte) string {
@@ -288,6 +322,53 @@ func TestSignStateSyscallCrashPoints(t *testing.T) {
 					}
 				}
 			}
+		}
+		// ---- the same system calls FAIL instead (disk full, too many open files, I/O error) and the process goes on:
+		// a signature whose sign state did not reach the file must not be released either
+		errPoints := 0
+		classes := errorClasses
+		if !lib.Thorough() {
+			// quick tier: two drawn classes per history (the thorough tier enumerates all of them)
+			i := rapid.IntRange(0, len(errorClasses)-1).Draw(t, "errClass1")
+			j := rapid.IntRange(0, len(errorClasses)-1).Draw(t, "errClass2")
+			classes = errorClasses[i : i+1]
+			if j != i {
+				classes = append(append(classes[:0:0], errorClasses[i]), errorClasses[j])
+			}
+		}
+		for _, class := range classes {
+			fault := rapid.SampledFrom(class.errnos).Draw(t, "errno")
+			for when := 1; when <= 400; when++ {
+				if err := copyDir(base, work); err != nil {
+					t.Fatalf("VERIF-INFRA: %v", err)
+				}
+				rel2, _, _, _, injected := runLifeFault(t, work, life2, 2, class.calls, when, fault)
+				if !injected {
+					break // fewer than `when` such calls: enumeration of this class complete
+				}
+				errPoints++
+				all := append(append([]released{}, rel1...), rel2...)
+				seen := map[string]bool{}
+				for _, x := range all {
+					key := fmt.Sprintf("%d/%d/%s", x.Op.H, x.Op.R, x.Op.Kind)
+					if seen[key] {
+						continue
+					}
+					seen[key] = true
+					if err := copyDir(work, filepath.Join(root, "probe")); err != nil {
+						t.Fatalf("VERIF-INFRA: %v", err)
+					}
+					probes := []signOp{{Kind: x.Op.Kind, H: x.Op.H, R: x.Op.R, Block: "Z"}, x.Op}
+					rel3, _, _, _ := runLife(t, filepath.Join(root, "probe"), probes, 3, "", 0)
+					if v := checkReleased(append(append([]released{}, all...), rel3...), pub); v != "" {
+						t.Fatalf("C04 violated: %s\n(in life 2 system call #%d of {%s} failed with %s and the process went on; files afterwards: %v; life-1 ops %v, life-2 ops %v)",
+							v, when, class.calls, fault, listDir(work), life1, life2)
+					}
+				}
+			}
+		}
+		if errPoints > 0 {
+			lib.Class(test, fmt.Sprintf("failing-syscall-points-per-history:%d", errPoints/10*10))
 		}
 		lib.Case(test, lib.FP(ops, cutAt, points), points > 0, fmt.Sprintf("crash-points-per-history:%d", points/10*10))
 		if tornPoints > 0 {
